@@ -136,10 +136,7 @@ def weights(item, res, viol, tmp):
         res["evals"] += 1
         res["transitions"] += N
         after = {k: v.clone() for k, v in w.model.state_dict().items()}
-        # model states after every step (state_dict form) from the recorded snapshots
-        per_step = []
-        for s in snaps:
-            per_step.append({k: s[n] for n, _ in named for k in before if n.endswith("module." + k)})
+        per_step = w.sd_snaps          # full state dicts of the model after every step
         ok = True
         for fname, want, expect in (("net_init.pt", init, before), ("net_final.pt", final, after)):
             fp = os.path.join(path, fname)
@@ -169,10 +166,18 @@ def weights(item, res, viol, tmp):
             else:
                 sd = torch.load(fp)
                 checked = [k for k in range(1, N) if (k - 1) % interval == 0]       # weights after step k are checked at the start of batch k
-                hit = [k for k in checked if all(torch.equal(sd[name], per_step[k - 1][name]) for name in sd if name in per_step[k - 1])]
-                if not hit or any(name not in per_step[0] for name in sd):
-                    viol("C19|min-loss-file-content", "%s: the minimal-loss file equals the weights of none of the checked steps %s" % (cfg, checked))
+                fresh = T.World().model
+                try:
+                    fresh.load_state_dict(sd)          # strict: every key of a freshly built identical model must be in the file
+                except Exception as e:
+                    viol("C19|weight-file-load|net_min_loss.pt", "%s: the minimal-loss file does not load into a fresh identical model: %s" % (cfg, str(e)[:120]))
                     ok = False
+                    sd = None
+                if sd is not None:
+                    hit = [k for k in checked if set(sd) == set(per_step[k - 1]) and all(torch.equal(sd[name], per_step[k - 1][name]) for name in sd)]
+                    if not hit:
+                        viol("C19|min-loss-file-content", "%s: the minimal-loss file equals the weights of none of the checked steps %s" % (cfg, checked))
+                        ok = False
         elif os.path.exists(fp):
             viol("C19|min-loss-file-unexpected", "%s: a minimal-loss file was written although check_interval <= 0" % cfg)
             ok = False
